@@ -88,6 +88,22 @@ func Bytes(b []byte) string {
 	}
 	return List(s)
 }
+// PackedBytes prints a byte string as the Coq pair (length, little-endian number as ONE hex
+// literal): (3, 0x030201) for {1,2,3}. Coq parses this ~10x faster than a list of numbers;
+// the checker unpacks it with [unpack] (see coq/Run/MsgCryptoInst.v).
+func PackedBytes(b []byte) string {
+	if len(b) == 0 {
+		return "(0, 0)"
+	}
+	var sb strings.Builder
+	sb.WriteString("(")
+	sb.WriteString(fmt.Sprintf("%d, 0x", len(b)))
+	for i := len(b) - 1; i >= 0; i-- {
+		sb.WriteString(fmt.Sprintf("%02x", b[i]))
+	}
+	sb.WriteString(")")
+	return sb.String()
+}
 func Tuple(items ...string) string { return "(" + strings.Join(items, ", ") + ")" }
 func Opt(ok bool, v string) string {
 	if ok {
